@@ -50,13 +50,16 @@ class Scenario:
             self.sent.setdefault(key_of(k), []).append(val)
             drive(gw.send(msg_of(k, val)))
         # the node has itself reported, for key A, the very value sender 0 will send first (and for key B a parked one)
-        for line in ("1;3;1;0;2;s00", "1;3;1;0;3;p1"):
+        for line in ("1;3;1;0;2;s00", "1;3;1;0;3;p1") + (("1;4;1;0;2;stored!",) if cfg.get("req") else ()):
             t.lines.append(line)
             drive(agen.__anext__())
         assert not t.log, t.log
         t.sync = False
         # what the listener receives: the wake, optionally followed by echoes of earlier commands (ack flag set)
         self.script = [f"1;255;3;0;{self.wt};0"] + [f"1;3;1;1;2;{e}" for e in cfg.get("echoes", [])]
+        if cfg.get("req"):
+            # before it wakes, the (sleeping) node asks for the value of child 4 / type 2, for which a command is parked
+            self.script = ["1;4;2;0;2;"] + self.script
         self.script_pos = 0
         self.fail_budget = cfg.get("faults", 0)
         self.cancel_budget = cfg.get("cancels", 0)
@@ -107,7 +110,8 @@ class Scenario:
         # a write whose caller was cancelled is gone (its future is cancelled before the caller runs again)
         self.t.pending_writes[:] = [e for e in self.t.pending_writes if not e[0].done()]
         if self.script_pos < len(self.script) and self.t.pending_read is not None:
-            evs.append("wake" if self.script_pos == 0 else "echo")
+            nxt = self.script[self.script_pos]
+            evs.append("wake" if nxt.split(";")[4] == str(self.wt) and nxt.split(";")[2] == "3" else ("req" if nxt.split(";")[2] == "2" else "echo"))
         for i in range(len(self.t.pending_writes)):
             evs.append(f"write:{i}")
             if self.fail_budget > 0:
@@ -120,7 +124,7 @@ class Scenario:
         return evs
 
     def fire(self, label: str) -> None:
-        if label in ("wake", "echo"):
+        if label in ("wake", "echo", "req"):
             self.wake_delivered = True
             self.t.deliver(self.script[self.script_pos])
             self.script_pos += 1
@@ -178,6 +182,13 @@ class Scenario:
             if f[2] == "3" and f[4] == "19":
                 continue  # presentation requests are not application commands
             written.setdefault((int(f[0]), int(f[1]), int(f[2]), int(f[4])), []).append(f[5])
+        if self.cfg.get("req"):
+            # the answer to the value request carries the stored value (C06): not a command
+            w = written.get((1, 4, 1, 2), [])
+            if "stored!" in w:
+                w.remove("stored!")
+                if not w:
+                    written.pop((1, 4, 1, 2), None)
         self.written = written
         for key, vals in self.sent.items():
             w = written.get(key, [])
@@ -221,6 +232,9 @@ def configs(ctx: core.Ctx) -> list:
         {"parked": [A], "senders": [[A], [A]], "sender_acks": [1, 0]},
         {"parked": [A, B], "senders": [[A, B], [A]], "sender_acks": [1, 0]},
         {"parked": [], "senders": [[A], [A], [A]], "sender_acks": [0, 1, 0]},
+        # the sleeping node asks for a value a command is parked for, then wakes
+        {"parked": [C], "senders": [[C]], "req": True},
+        {"parked": [A, C], "senders": [[C], [A]], "req": True},
         # the application's wait for the next message is cancelled (a timeout) while a release write is in flight
         {"parked": [A, B], "senders": [[C]], "cancels": 1},
         {"parked": [A, I], "senders": [[A]], "cancels": 1},
